@@ -27,7 +27,10 @@ pub fn run(case: &Value) -> Value {
             Some(j) if usize::try_from(j).unwrap() < k => dirs[usize::try_from(j).unwrap()].join("buildpacks"),
             _ => tmp.path().join("ws"),
         };
-        let dir = base.join(format!("d{k:03}"));
+        let dir = match node["dirname"].as_str() {
+            Some(dn) => base.join(dn),
+            None => base.join(format!("d{k:03}")),
+        };
         dirs.push(dir.clone());
         fs::create_dir_all(&dir).unwrap();
         let id = node["id"].as_u64().unwrap();
